@@ -70,7 +70,7 @@ class Builder:
                              ','.join(main))
 
 
-def gen_program(rng, nw3_ok):
+def gen_program(rng, nw3_ok=True):
     """seeded acyclic nesting within the documented contract: a TaskSet is used by one thread only, a
     set is never waited on while it is being scheduled into, at most one waiter per set at a time"""
     b = Builder()
@@ -206,13 +206,14 @@ def run(ctx):
     if thorough:
         ctx.check_model(SPEC, 'MCNested.tla', 'MC_cover.cfg', WHAT, workers=4, extra=nogen, vacuity_exempt=VAC_SMALL,
                         label='cross-wait program, 1 worker, repaired waiters: no starved state, <>AllDone under WF')
+        ctx.check_model(SPEC, 'MCNested.tla', 'MC_live.cfg', WHAT, workers=4, extra=nogen, vacuity_exempt=vac, timeout=3000,
+                        label='quick matrix with <>AllDone under per-thread weak fairness')
     ctx.check_model(SPEC, 'MCNested.tla', 'MC_thorough.cfg' if thorough else 'MC_quick.cfg', WHAT, workers=4, extra=nogen,
                     vacuity_exempt=vac, timeout=3000,
-                    label='program library x pools 0..%d, repaired waiters: no starved state%s' % (
-                        3 if thorough else 2, ', <>AllDone under WF' if thorough else ''))
+                    label='program library x pools 0..%d, repaired waiters: no starved state' % (3 if thorough else 2))
     neg = ctx.tlc(SPEC, 'MCNested.tla', 'MC_nofix_all.cfg' if thorough else 'MC_cross_nofix.cfg', workers=4, extra=nogen,
                   label='negative control: original waiters (central queue + locality rings only) must starve', count=False)
-    if neg.violation != 'Invariant NoStarvation':
+    if neg.violation not in ('Invariant NoStarvation', 'Deadlock'):
         raise vlib.ToolError('negative control did not fail: the model with the original waiters no longer starves (%s)' % neg.violation)
     ctx.sample({'negative_control_counterexample': neg.counterexample()[:1200]})
     if thorough:
@@ -223,14 +224,14 @@ def run(ctx):
     rng = random.Random(ctx.seed)
     progs = ['R=%d NW=0,1,2%s %s' % (6 if thorough else 2, ',3' if thorough else '', p) for p in LIBRARY]
     # directed: many short executions of the steal-ring starvation's schedule class
-    progs += ['R=%d %s' % (60 if thorough else 12, p) for p in DIRECTED]
+    progs += ['R=%d %s' % (30 if thorough else 8, p) for p in DIRECTED]
     gen = []
-    for i in range(40 if thorough else 10):
+    for i in range(30 if thorough else 8):
         p = gen_program(rng, True)
         # a waiting loop over 3 items needs at least 2 pool threads to get one item per chunk (or 0: inline)
         three = any(op.startswith('p') and op.count('.') >= 3 for part in p.split(';')[1:] for t in part.split('|')
                     for op in t.split(':')[-1].split(','))
-        gen.append('R=%d NW=%s %s' % (6 if thorough else 3, '0,2' if three else rng.choice(['0,1,2', '1,2', '1,2,3' if thorough else '1,2']), p))
+        gen.append('R=%d NW=%s %s' % (4 if thorough else 3, '0,2' if three else rng.choice(['0,1,2', '1,2', '1,2,3' if thorough else '1,2']), p))
     tr, info = run_batch(ctx, exe, progs + gen, 'programs', 3, ctx.seed)
     ctx.sample_trace(tr, 10, skip=30)
     ctx.sample({'random_programs': gen[:4], 'directed': DIRECTED[:2]})
@@ -238,7 +239,7 @@ def run(ctx):
     # the open finding (stack inversion): model and real code, reported under its own signature ------
     inv = ctx.tlc(SPEC, 'MCNested.tla', 'MC_inversion.cfg', workers=4, extra=nogen, count=False,
                   label='stack inversion programs (a waiter steals a task that blocks on work suspended beneath it)')
-    if inv.violation == 'Invariant NoStarvation':
+    if inv.violation in ('Invariant NoStarvation', 'Deadlock'):
         hit = 0
         for attempt in (0, 1):
             pf = os.path.join(ctx.work, 'inversion.progs')
